@@ -119,7 +119,7 @@ PROPS = {
     },
     "C19": {
         "controls": ["CLI-1"],
-        "rules": [("CLI-1", cli.cli1), ("CLI-4", cli.cli4), ("TAB-7", cli.tab7), ("CLI-6", r5.cli6), ("CLI-7", r5.cli7), ("CLI-9", r5.cli9), ("CLI-10", r5.cli10), ("CLI-12", r5.cli12), ("CLI-14", r5.cli14), ("CLI-16", r5.cli16)],
+        "rules": [("CLI-1", cli.cli1), ("CLI-4", cli.cli4), ("TAB-7", cli.tab7), ("CLI-6", r5.cli6), ("CLI-7", r5.cli7), ("CLI-9", r5.cli9), ("CLI-10", r5.cli10), ("CLI-12", r5.cli12), ("CLI-14", r5.cli14), ("CLI-16", r5.cli16), ("CLI-19", r5.cli19)],
         "explanation": "Decides the wiring and file-format clauses of C19: no call (lib, bin) passes same-typed arguments crosswise to each other's parameters "
                        "(names of arguments vs parameters); in `asca run` the four components of get_input reach asca::run's parameters of the same role and the "
                        "value printed / written is the Ok payload of that call joined by LINE_ENDING; writers and readers of .rsca/.alias/.wsca use the same sigils "
@@ -196,7 +196,7 @@ PROPS = {
         "assumptions": ["formatters keep binding the raw payload fields under the names group/line/kind"],
     },
     "C12": {
-        "rules": [("TAB-4", tab2.tab4), ("SHR-1", tab2.shr1), ("SHR-3", tab2.shr3), ("FLW-13", r5.flw13), ("ENV-5", r5.env5), ("SHR-5", r5.shr5), ("VAR-4", r5.var4), ("SHR-6", r5.shr6)],
+        "rules": [("TAB-4", tab2.tab4), ("SHR-1", tab2.shr1), ("SHR-3", tab2.shr3), ("FLW-13", r5.flw13), ("ENV-5", r5.env5), ("SHR-5", r5.shr5), ("VAR-4", r5.var4), ("SHR-6", r5.shr6), ("SHR-7", r5.shr7)],
         "explanation": "Decides three table/shape clauses of C12. SHR-3: Parser::get_spec_env returns exactly two items, each an Environment with one Env: the first `before = X, after = []`, the second `before = [], after = X` passed through `rev()` (so Rule::split_into_subrules makes two sub-rules, `X_` then `_X` mirrored). SHR-1: in Rule::split_into_subrules each of the four lists (input, output, context, except) is indexed under a length test of that same list (a singleton is shared, otherwise element i) — necessary for 'a condensed rule behaves as its sub-rules'. TAB-4: the letter -> matrix table of Parser::group_to_matrix equals its "
                        "sibling in AliasParser and the table in doc/doc.md § Groupings (feature names resolved through the lexer's own synonym table).",
         "does_not_decide": "that the sub-rules behave as separate rules, optional bounds and `&` expansion (equalities between two interpreter runs).",
